@@ -2,6 +2,7 @@ import Driver.Util
 import MpcVerif.Model.Proto2
 import MpcVerif.Model.Proto2Int
 import MpcVerif.Model.Proto2Conn
+import MpcVerif.Model.Proto2Route
 
 namespace Drv.C02
 open Mpc Drv
@@ -76,7 +77,7 @@ def parseArgVals (s : String) : Option ArgVals :=
 
 /-- One session on bit-list inputs: results, and with the ideal OT both complete
 byte streams. -/
-def session (otName tape nw nin nout gates n0 n1 widths : String) (x y : List Bool) : String :=
+def session (otName tape nw nin nout gates n0 n1 widths : String) (x y : List Bool) (dv : Derived := {}) : String :=
   match Aes.bytesOfHex tape, parseCircuit nw nin nout gates, n0.toNat?, n1.toNat?, parseNats widths with
   | some tape, some c, some n0, some n1, some widths =>
     let p : Circuit2 := { c := c, n0 := n0, n1 := n1, outWidths := widths }
@@ -84,7 +85,8 @@ def session (otName tape nw nin nout gates n0 n1 widths : String) (x y : List Bo
     let key := (tape.extract 0 32).toList
     let r := setS (label128 tape 32)
     let inl := fun i => label128 tape (32 + 16 * (i + 1))
-    match run2 p mkH key r inl x y idealOt with
+    -- the session on the Go circuit VALUE: defining fields + the derived data it carried
+    match run2Go { core := p, derived := dv } mkH key r inl x y idealOt with
     | .error _ => "error"
     | .ok (gres, eres) =>
       let res := s!"g={natsStr gres};e={natsStr eres}"
@@ -108,9 +110,39 @@ def session (otName tape nw nin nout gates n0 n1 widths : String) (x y : List Bo
             s!"ge={Aes.hexOfBytes ge};eg={Aes.hexOfBytes eg};" ++ res
   | _, _, _, _, _ => "bad-op"
 
+/-- Does the `Stats` field the harness reports for a circuit value fit the route
+it names (`Route.construct`, Model/Proto2Route.lean)?  `exact` / `parsed`: the
+counts of the gate list; `zero`: all zero; `appended`: the counts of the gate
+list without its last 1..4 gates; `stale` / `levels`: anything. -/
+def routeFits (route : String) (stats : List Nat) (gates : List Gate) : Bool :=
+  let kinds := fun (g : List Gate) => (exactStats g).take 5
+  match route with
+  | "exact" | "parsed" => stats == exactStats gates
+  | "zero" => stats.all (· == 0) && stats.length == 8
+  | "appended" => [1, 2, 3, 4].any fun k => k ≤ gates.length && stats.take 5 == kinds (gates.take (gates.length - k))
+  | "stale" | "levels" => stats.length == 8
+  | _ => false
+
 /-- `c02 <ot> <tape> <nw> <nin> <nout> <gates> <n0> <n1> <widths> <x> <y>` -/
 def handle (args : List String) : String :=
   match args with
+  | "rt" :: route :: stats :: rest =>
+    -- a session on a circuit value constructed along `route`, carrying `stats` in
+    -- its derived `Stats` field; bit-list and integer input forms
+    match (stats.splitOn ",").mapM String.toNat? with
+    | none => "bad-op"
+    | some st =>
+      let dv : Derived := { stats := st }
+      match rest with
+      | [otName, tape, nw, nin, nout, gates, n0, n1, widths, x, y] =>
+        if !(routeFits route st ((parseGates gates).getD [])) then "bad-route" else
+        session otName tape nw nin nout gates n0 n1 widths (parseBits x) (parseBits y) dv
+      | ["int", otName, tape, nw, nin, nout, gates, n0, n1, widths, xs, ys] =>
+        if !(routeFits route st ((parseGates gates).getD [])) then "bad-route" else
+        match parseArgVals xs, parseArgVals ys with
+        | some xs, some ys => session otName tape nw nin nout gates n0 n1 widths (encodeArg xs) (encodeArg ys) dv
+        | _, _ => "bad-op"
+      | _ => "bad-op"
   | [n0, n1, offset, count] =>
     -- `c04range n0 n1 offset count`: the garbler's guard on the evaluator's OT request
     match n0.toNat?, n1.toNat?, offset.toNat?, count.toNat? with
